@@ -826,8 +826,29 @@ fn c20() {
     println!("C20 dangling-reference message: ret={} {}", o.ret_code, o.error_message);
 }
 
+// ---- C17: tetraplets of lens results on canon streams (deviant sibling) ----
+fn c17() {
+    use air_interpreter_sede::FromSerialized;
+    let mut a = peer(1); let aid = a.id.clone();
+    let script = format!(r#"(seq (call "{a}" ("s" "f") [] v) (seq (ap v $s) (seq (canon "{a}" $s #canon) (call "{a}" ("s" "g") [v.$.a #canon.$.[0].a #canon.length]))))"#, a = aid);
+    let o1 = run(&mut a, &aid, &script, vec![], HashMap::new());
+    assert_eq!(o1.ret_code, 0, "{}", o1.error_message);
+    let mut res = HashMap::new();
+    res.insert("1".to_string(), CallServiceResult { ret_code: 0, result: r#"{"a": 1}"#.to_string() });
+    let o2 = run(&mut a, &aid, &script, vec![], res);
+    assert_eq!(o2.ret_code, 0, "{}", o2.error_message);
+    let reqs = CallRequestsRepr.deserialize(&o2.call_requests).unwrap();
+    for (id, p) in reqs {
+        let tets: Vec<Vec<polyplets::SecurityTetraplet>> = TetrapletsRepr.deserialize(&p.tetraplets).unwrap();
+        for (i, t) in tets.iter().enumerate() {
+            println!("C17 request {id} arg {i}: {}", t.iter().map(|t| format!("(peer=.. service={:?} function={:?} lens={:?})", t.service_id, t.function_name, t.lens)).collect::<Vec<_>>().join(" "));
+        }
+    }
+}
+
 fn main() {
     let which: Vec<String> = std::env::args().skip(1).collect();
+    if which.iter().any(|w| w == "c17") { c17(); }
     if which.first().map(|w| w.starts_with("nd-")).unwrap_or(false) { nd::main_nd(&which); return; }
     if which.iter().any(|w| w == "c20") { c20(); }
     if which.iter().any(|w| w == "c23") { c23(); }
